@@ -5,7 +5,7 @@
    from_parameters).  Property C13.
 
    Parameter types (field annotations only, "" = no annotation):
-       <<"or", annot, left, right>>        <<"leaf", annot, base>>     base \in {"int","string","unit"}
+       <<"or", annot, left, right>>        <<"leaf", annot, base>>     base \in {"int","string","unit","address","bigmap"}
    Values are MichSem values:  <<"l",x>> <<"r",x>> <<"i",n>> <<"s",bytes>> <<"unit">>.
 
    Tezos: every node that is reachable from the root through `or` nodes only and that
@@ -48,6 +48,9 @@ Rebase(t, i) ==   \* <<t with bases dealt round-robin from index i, next index>>
 LeafVals(b) == CASE b = "int" -> {<<"i", -1>>, <<"i", 5>>}
                  [] b = "string" -> {<<"s", <<>>>>, <<"s", <<120>>>>}
                  [] b = "unit" -> {<<"unit">>}
+                 \* leaves whose rendering depends on the mode (address) or on how the value is given (big_map int string, given by value)
+                 [] b = "address" -> {<<"a", <<1>> \o [j \in 1..20 |-> 7] \o <<0>>, <<109, 105, 110, 116>>>>, <<"a", <<0, 0>> \o [j \in 1..20 |-> 9], <<>>>>}
+                 [] b = "bigmap" -> {<<"map", <<>>>>, <<"map", << << <<"i", 1>>, <<"s", <<97>>>> >> >>>>}
 RECURSIVE Vals(_)
 Vals(t) == IF t[1] = "leaf" THEN LeafVals(t[3])
            ELSE {<<"l", x>> : x \in Vals(t[3])} \cup {<<"r", x>> : x \in Vals(t[4])}
